@@ -198,9 +198,75 @@ def seconds(t):
     return t.hour * 3600 + t.minute * 60 + t.second + t.microsecond / 1e6
 
 
+def check_against_text(ctx, cid, s, text, where):
+    """Judge a loaded sample against the reference derivation from its own keywords (used for real instrument files)."""
+    from rv.refmodels import metadata
+    exp = metadata.derive(text)
+    D = len(exp['channels'])
+    ix = list(range(D))
+    ctx.counters['chk:real-files'] += 1
+    ctx.check(tuple(s.channels) == exp['channels'], 'channels', cid, where=where, got=list(s.channels))
+    ctx.check(list(s.channel_labels(ix)) == exp['labels'], 'labels', cid, where=where)
+    ctx.check([list(map(float, r)) for r in s.range(ix)] == exp['range'], 'range', cid, where=where)
+    ctx.check(list(s.resolution(ix)) == exp['resolution'], 'resolution', cid, where=where)
+    ctx.check(list(s.amplification_type(ix)) == exp['amp'], 'amplification-type', cid, where=where,
+              got=list(s.amplification_type(ix)), want=exp['amp'])
+    same = lambda a, b: all((x is None and y is None) or (x is not None and y is not None and (x == y or (x != x and y != y)))
+                            for x, y in zip(a, b))
+    ctx.check(same(list(s.detector_voltage(ix)), exp['volt']), 'detector-voltage', cid, where=where,
+              got=list(s.detector_voltage(ix)), want=exp['volt'])
+    ctx.check(same(list(s.amplifier_gain(ix)), exp['gain']), 'amplifier-gain', cid, where=where,
+              got=list(s.amplifier_gain(ix)), want=exp['gain'])
+    ts = s.time_step
+    ctx.check(any((ts is None and w is None) or (ts is not None and w is not None and (abs(ts - w) <= 1e-12 * abs(w) or ts != ts))
+                  for w in exp['time_step']), 'time-step', cid, where=where, got=ts, want=exp['time_step'])
+    date = exp['date']
+    if date != 'ambiguous' and exp['start'] != 'leap' and exp['end'] != 'leap':
+        ctx.check(time_ok(s.acquisition_start_time, exp['start'], date), 'start-time', cid, where=where,
+                  got=repr(s.acquisition_start_time), want=repr(exp['start']), date=repr(date))
+        ctx.check(time_ok(s.acquisition_end_time, exp['end'], date), 'end-time', cid, where=where,
+                  got=repr(s.acquisition_end_time), want=repr(exp['end']), date=repr(date))
+    else:
+        ctx.note('ambiguous date or leap second in a real file (not judged)')
+    tch = [i for i, c in enumerate(exp['channels']) if c is not None and c.lower() == 'time']
+    a = core.attempt(lambda: s.acquisition_time)
+    if len(tch) <= 1 and (not tch or s.shape[0] > 0):
+        if ctx.check(not a.raised, 'duration-raises', cid, where=where, exc=core.exc_str(a.exc) if a.raised else None):
+            A = np.asarray(s)
+            if tch and ts is not None:
+                want = (float(A[-1, tch[0]]) - float(A[0, tch[0]])) * ts
+            elif exp['start'] not in (None, 'leap') and exp['end'] not in (None, 'leap'):
+                want = seconds(exp['end']) - seconds(exp['start'])
+            else:
+                want = None
+            got = a.value
+            ctx.check((want is None and got is None) or (want is not None and got is not None and abs(float(got) - want) <= 2e-6 + 1e-9 * abs(want)),
+                      'duration', cid, where=where, got=got, want=want)
+    return exp
+
+
 def run(ctx):
     F = core.import_flowcal()
     path = os.path.join(ctx.tmpdir, 'c17.fcs')
+    # ---- real instrument files shipped with the repository, judged from their own keywords -------------------
+    if ctx.shard == 0 or ctx.only_case is not None:
+        import glob
+        root = core.repo_root()
+        files = sorted(glob.glob(os.path.join(root, 'test', '*.fcs')) + glob.glob(os.path.join(root, 'examples', 'FCFiles', '*.fcs')))
+        for fn in files:
+            if os.path.getsize(fn) == 0:
+                continue            # placeholder files emptied in this sandbox
+            cid = ('real', os.path.relpath(fn, root))
+            if ctx.only_case is not None and tuple(ctx.only_case) != cid:
+                continue
+            o = core.attempt(F.io.FCSData, fn)
+            if ctx.check(not o.raised, 'loading-blocked-by-optional-keyword', cid, exc=core.exc_str(o.exc) if o.raised else None):
+                text = dict(F.io.FCSFile(fn).text)
+                check_against_text(ctx, cid, o.value, text, 'real-file')
+                ctx.case_done(class_key=('real-file', text.get('$CYT', '?')[:20], text.get('CREATOR', '?')[:20]), nontrivial=True,
+                              distinct_key=core.digest(cid),
+                              sample={'file': cid[1], 'creator': text.get('CREATOR'), 'btim': text.get('$BTIM'), 'date': text.get('$DATE')}
+                              if fn.endswith('Data001.fcs') else None)
     n = 1200 if ctx.tier == 'quick' else 200000
     for cid, rng in ctx.cases([('k', i) for i in range(n)]):
         spec, exp, cls = make_case(rng)
@@ -268,6 +334,7 @@ def run(ctx):
                 else:
                     ctx.check(got is not None and abs(float(got) - want) <= 2e-6 + 1e-9 * abs(want), 'duration', cid,
                               got=got, want=want, time_channel=exp['tkind'], **desc)
+        check_against_text(ctx, cid, s, dict(s.text), 'generated (reference derivation from the keywords)')
         vend = exp['creator'] != 'none'
         ctx.case_done(class_key=clskey, nontrivial=ill or vend, distinct_key=core.digest(raw),
                       sample=dict(desc, classes=clskey) if cid[1] < 2 else None)
